@@ -241,12 +241,17 @@ Proof.
   apply in_or_app. left. apply in_or_app. left. exact H.
 Qed.
 
+(* the loop's result differs from the state after the (optional) sync only in what was read ahead *)
+Definition same_files (d' X : dq) : Prop :=
+  fs d' = fs X /\ trace d' = trace X /\ readFileNum d' = readFileNum X /\ writeFileNum d' = writeFileNum X /\
+  readPos d' = readPos X /\ writePos d' = writePos X /\ depth d' = depth X.
+
 (* ---- the loop, when nothing is read ahead: it reads the next record, if there is one ---- *)
 Lemma loop_fresh c d pre w off f :
   sbody c (readFileNum d) (readPos d) (writeFileNum d) (writePos d) (depth d) (f_segs (fs d)) pre w off ->
   nextReadPos d = readPos d -> (undel pre w off = [] -> nextReadFileNum d = readFileNum d) ->
   handle_okk (frames (headf pre w)) (rfile d) (N.to_nat (readPos d)) (readFileNum d) ->
-  exists d', loop_top c (S f) d = Some d' /\ sinv c d' pre w off.
+  exists d', loop_top c (S f) d = Some d' /\ sinv c d' pre w off /\ same_files d' (presync c d).
 Proof.
   intros B Hnp Hnf Hh. rewrite loop_top_unfold. cbv zeta.
   pose proof (presync_fields c d) as P. cbv zeta in P.
@@ -260,7 +265,7 @@ Proof.
   - destruct (undel_nil_inv pre w off Ho1 Ho2 EU) as [-> ->].
     cbn [headf length] in *. rewrite N.add_0_r in Hn. rewrite fpos_all in Hr by lia.
     replace ((readFileNum d2 <? writeFileNum d2) || (readPos d2 <? writePos d2)) with false by (rewrite P1, P2, P3, P4; lia).
-    eexists. split; [reflexivity|]. split.
+    eexists. split; [reflexivity|]. refine (conj (conj _ _) (conj eq_refl (conj eq_refl (conj eq_refl (conj eq_refl (conj eq_refl (conj eq_refl eq_refl))))))).
     + cbn [setr readPos writePos readFileNum writeFileNum depth fs]. rewrite P1, P2, P3, P4, P5, P11. exact B.
     + unfold head_ok. rewrite EU. cbn [setr ready nextReadPos readPos nextReadFileNum readFileNum rfile headf].
       rewrite P6, P1, P7, P3, P8. specialize (Hnf eq_refl). auto.
@@ -284,11 +289,11 @@ Proof.
     + rewrite P8. rewrite Hr, Nat2N.id in Hh. exact Hh.
     + rewrite E. eexists. split; [reflexivity|].
       destruct (c_max c <? readPos d2 + 4 + N.of_nat (length m)) eqn:Eroll.
-      * split.
+      * refine (conj (conj _ _) (conj eq_refl (conj eq_refl (conj eq_refl (conj eq_refl (conj eq_refl (conj eq_refl eq_refl))))))).
         -- cbn [setr readPos writePos readFileNum writeFileNum depth fs]. rewrite P1, P2, P3, P4, P5, P11. exact B.
         -- unfold head_ok. rewrite EU.
            cbn [setr ready pending nextReadPos readPos nextReadFileNum readFileNum rfile]. rewrite Eroll. auto.
-      * split.
+      * refine (conj (conj _ _) (conj eq_refl (conj eq_refl (conj eq_refl (conj eq_refl (conj eq_refl (conj eq_refl eq_refl))))))).
         -- cbn [setr readPos writePos readFileNum writeFileNum depth fs]. rewrite P1, P2, P3, P4, P5, P11. exact B.
         -- unfold head_ok. rewrite EU.
            cbn [setr ready pending nextReadPos readPos nextReadFileNum readFileNum rfile]. rewrite Eroll.
@@ -308,7 +313,7 @@ Lemma loop_ahead c d pre w off f m r :
    then nextReadFileNum d = readFileNum d + 1 /\ nextReadPos d = 0 /\ rfile d = None
    else nextReadFileNum d = readFileNum d /\ nextReadPos d = readPos d + 4 + N.of_nat (length m) /\
         handle_okk (frames (headf pre w)) (rfile d) (N.to_nat (nextReadPos d)) (readFileNum d) /\ rfile d <> None) ->
-  exists d', loop_top c (S f) d = Some d' /\ sinv c d' pre w off.
+  exists d', loop_top c (S f) d = Some d' /\ sinv c d' pre w off /\ same_files d' (presync c d).
 Proof.
   intros B EU Hrdy Hpend Hhead.
   destruct (nextReadPos d =? readPos d) eqn:Eq.
@@ -331,7 +336,7 @@ Proof.
       - pose proof (fpos_lt_fsize w off Hlt). lia.
       - lia. }
     rewrite Hreadable. rewrite P6, P1, Eq.
-    eexists. split; [reflexivity|]. split.
+    eexists. split; [reflexivity|]. refine (conj (conj _ _) (conj eq_refl (conj eq_refl (conj eq_refl (conj eq_refl (conj eq_refl (conj eq_refl eq_refl))))))).
     + cbn [setr readPos writePos readFileNum writeFileNum depth fs]. rewrite P1, P2, P3, P4, P5, P11. exact B.
     + unfold head_ok. rewrite EU.
       cbn [setr ready pending nextReadPos readPos nextReadFileNum readFileNum rfile].
@@ -440,7 +445,7 @@ Lemma loop_settle c d d1 pre w off pre' w' tail f :
   sbody c (readFileNum d1) (readPos d1) (writeFileNum d1) (writePos d1) (depth d1) (f_segs (fs d1)) pre' w' off ->
   (exists x, frames (headf pre' w') = frames (headf pre w) ++ x) ->
   undel pre' w' off = undel pre w off ++ tail ->
-  exists d', loop_top c (S f) d1 = Some d' /\ sinv c d' pre' w' off.
+  exists d', loop_top c (S f) d1 = Some d' /\ sinv c d' pre' w' off /\ same_files d' (presync c d1).
 Proof.
   intros E1 E2 E3 E4 E5 E6 E7 Hhead B1 [x Hx] Hu.
   unfold head_ok in Hhead. destruct (undel pre w off) as [|m0 r] eqn:EU.
@@ -457,7 +462,9 @@ Qed.
 Lemma put_stepS c d pre w off m :
   sinv c d pre w off -> small m ->
   exists d' pre' w', loop_top c LOOP_FUEL (write_one c d m) = Some d' /\ sinv c d' pre' w' off /\
-                     undel pre' w' off = undel pre w off ++ [m].
+                     undel pre' w' off = undel pre w off ++ [m] /\
+                     (pre' = pre /\ w' = w ++ [m] \/ pre' = pre ++ [w ++ [m]] /\ w' = []) /\
+                     same_files d' (presync c (write_one c d m)).
 Proof.
   intros [B Hhead] Hm.
   pose proof (sb_off _ _ _ _ _ _ _ _ _ _ B) as [Ho1 Ho2].
@@ -473,22 +480,23 @@ Proof.
   destruct (c_max c <? writePos d + 4 + N.of_nat (length m)) eqn:Eroll.
   - (* roll-over *)
     destruct F10 as [G1 G2].
-    destruct (loop_settle c d d1 pre w off (pre ++ [w ++ [m]]) [] [m] 63 F1 F2 F4 F5 F6 F7 F8 Hhead) as [d' [E I]].
+    destruct (loop_settle c d d1 pre w off (pre ++ [w ++ [m]]) [] [m] 63 F1 F2 F4 F5 F6 F7 F8 Hhead) as [d' [E [I FT]]].
     + rewrite F1, F2, F3, G1, G2. exact B1.
     + destruct pre as [|f0 pre']; cbn [headf app]; [exists (frame m); apply frames_app | exists []; rewrite app_nil_r; reflexivity].
     + apply undel_put_roll. exact Ho1.
-    + exists d', (pre ++ [w ++ [m]]), []. split; [exact E|]. split; [exact I | apply undel_put_roll; exact Ho1].
+    + exists d', (pre ++ [w ++ [m]]), []. split; [exact E|]. split; [exact I|]. split; [apply undel_put_roll; exact Ho1|]. split; [right; auto | exact FT].
   - destruct F10 as [G1 G2].
-    destruct (loop_settle c d d1 pre w off pre (w ++ [m]) [m] 63 F1 F2 F4 F5 F6 F7 F8 Hhead) as [d' [E I]].
+    destruct (loop_settle c d d1 pre w off pre (w ++ [m]) [m] 63 F1 F2 F4 F5 F6 F7 F8 Hhead) as [d' [E [I FT]]].
     + rewrite F1, F2, F3, G1, G2. exact B1.
     + destruct pre as [|f0 pre']; cbn [headf app]; [exists (frame m); apply frames_app | exists []; rewrite app_nil_r; reflexivity].
     + apply undel_put_noroll. exact Ho1.
-    + exists d', pre, (w ++ [m]). split; [exact E|]. split; [exact I | apply undel_put_noroll; exact Ho1].
+    + exists d', pre, (w ++ [m]). split; [exact E|]. split; [exact I|]. split; [apply undel_put_noroll; exact Ho1|]. split; [left; auto | exact FT].
 Qed.
 
 (* ---- a sync tick ---- *)
 Lemma tick_stepS c d pre w off :
-  sinv c d pre w off -> exists d', loop_top c LOOP_FUEL (set_needsync d true) = Some d' /\ sinv c d' pre w off.
+  sinv c d pre w off -> exists d', loop_top c LOOP_FUEL (set_needsync d true) = Some d' /\ sinv c d' pre w off /\
+                        same_files d' (presync c (set_needsync d true)).
 Proof.
   intros [B Hhead]. unfold LOOP_FUEL.
   apply (loop_settle c d (set_needsync d true) pre w off pre w [] 63); try reflexivity; try exact Hhead.
@@ -504,18 +512,22 @@ Lemma move_forward_fields d :
   let r0 := move_forward d in
   readPos r0 = nextReadPos d /\ writePos r0 = writePos d /\ readFileNum r0 = nextReadFileNum d /\ writeFileNum r0 = writeFileNum d /\
   depth r0 = (depth d - 1)%Z /\ nextReadPos r0 = nextReadPos d /\ nextReadFileNum r0 = nextReadFileNum d /\ rfile r0 = rfile d /\
-  f_segs (fs r0) = (if negb (readFileNum d =? nextReadFileNum d) then seg_del (f_segs (fs d)) (readFileNum d) else f_segs (fs d)).
+  f_segs (fs r0) = (if negb (readFileNum d =? nextReadFileNum d) then seg_del (f_segs (fs d)) (readFileNum d) else f_segs (fs d)) /\
+  needSync r0 = needSync d || negb (readFileNum d =? nextReadFileNum d) /\
+  fs r0 = (if negb (readFileNum d =? nextReadFileNum d) then with_segs (fs d) (seg_del (f_segs (fs d)) (readFileNum d)) else fs d) /\
+  trace r0 = (if negb (readFileNum d =? nextReadFileNum d) && match seg_get (f_segs (fs d)) (readFileNum d) with Some _ => true | None => false end
+              then (L_seg_remove, fs r0) :: trace d else trace d).
 Proof.
   intros H. cbv zeta. unfold move_forward. cbv zeta. unfold check_tail.
   cbn [readPos writePos readFileNum writeFileNum depth nextReadPos nextReadFileNum needSync count rfile wopen pending ready fs trace].
   destruct ((nextReadFileNum d <? writeFileNum d) || (nextReadPos d <? writePos d)) eqn:E.
-  - cbn [readPos writePos readFileNum writeFileNum depth nextReadPos nextReadFileNum rfile fs].
+  - cbn [readPos writePos readFileNum writeFileNum depth nextReadPos nextReadFileNum needSync rfile fs trace].
     repeat split; try reflexivity. destruct (negb (readFileNum d =? nextReadFileNum d)); reflexivity.
   - destruct H as [H|[H1 [H2 H3]]]; [discriminate|].
     rewrite H3. cbn [Z.eqb].
-    cbn [readPos writePos readFileNum writeFileNum depth nextReadPos nextReadFileNum rfile fs].
+    cbn [readPos writePos readFileNum writeFileNum depth nextReadPos nextReadFileNum needSync rfile fs trace].
     rewrite H1, H2, !N.eqb_refl. cbn [negb orb].
-    cbn [readPos writePos readFileNum writeFileNum depth nextReadPos nextReadFileNum rfile fs].
+    cbn [readPos writePos readFileNum writeFileNum depth nextReadPos nextReadFileNum needSync rfile fs trace].
     repeat split; try reflexivity; try (symmetry; assumption).
     destruct (negb (readFileNum d =? writeFileNum d)); reflexivity.
 Qed.
@@ -537,7 +549,15 @@ Proof. unfold fsize, fpos. rewrite (frames_firstn_skipn f n) at 1. apply app_len
 
 Lemma get_stepS c d pre w off m r :
   sinv c d pre w off -> undel pre w off = m :: r ->
-  exists d' pre' off', loop_top c LOOP_FUEL (move_forward d) = Some d' /\ sinv c d' pre' w off' /\ undel pre' w off' = r.
+  exists d' pre' off', loop_top c LOOP_FUEL (move_forward d) = Some d' /\ sinv c d' pre' w off' /\ undel pre' w off' = r /\
+                       ((pre' = pre /\ off' = S off /\ fs (move_forward d) = fs d /\ trace (move_forward d) = trace d /\
+                         readFileNum (move_forward d) = readFileNum d /\ writeFileNum (move_forward d) = writeFileNum d) \/
+                        ((exists f0, pre = f0 :: pre' /\ S off = length f0) /\ off' = 0%nat /\
+                         fs (move_forward d) = with_segs (fs d) (seg_del (f_segs (fs d)) (readFileNum d)) /\
+                         trace (move_forward d) = (L_seg_remove, fs (move_forward d)) :: trace d /\
+                         needSync (move_forward d) = true /\ readFileNum (move_forward d) = readFileNum d + 1 /\
+                         writeFileNum (move_forward d) = writeFileNum d)) /\
+                       same_files d' (presync c (move_forward d)).
 Proof.
   intros [B Hhead] EU. unfold head_ok in Hhead. rewrite EU in Hhead. destruct Hhead as [Hrdy [Hpend Hif]].
   destruct B as [Hn Hcl Hop Hsg Hws Hab [Ho1 Ho2] Hr Hw Hd Hsm].
@@ -566,9 +586,11 @@ Proof.
       - left. cbn [length] in Hn. lia. }
     pose proof (move_forward_fields d Hpre) as F. cbv zeta in F.
     set (r0 := move_forward d) in *.
-    destruct F as [F1 [F2 [F3 [F4 [F5 [F6 [F7 [F8 F9]]]]]]]].
-    replace (negb (readFileNum d =? nextReadFileNum d)) with true in F9 by (rewrite H1; lia).
-    destruct (loop_fresh c r0 pre' w 0 63) as [d' [E I]].
+    destruct F as [F1 [F2 [F3 [F4 [F5 [F6 [F7 [F8 [F9 [F10 [F11 F12]]]]]]]]]]].
+    replace (negb (readFileNum d =? nextReadFileNum d)) with true in F9, F10, F11, F12 by (rewrite H1; lia).
+    pose proof (Hsg 0%nat f0 eq_refl) as Hs0. rewrite N.add_0_r in Hs0. rewrite Hs0 in F12.
+    cbn [andb] in F12. rewrite orb_true_r in F10.
+    destruct (loop_fresh c r0 pre' w 0 63) as [d' [E [I FT]]].
     + rewrite F1, F2, F3, F4, F5, F9, H1, H2. constructor.
       * lia.
       * intros f Hf. apply Hcl. right. exact Hf.
@@ -586,7 +608,8 @@ Proof.
     + rewrite F6, F1. reflexivity.
     + intros _. rewrite F7, F3. reflexivity.
     + rewrite F8, H3. exact I.
-    + exists d', pre', 0%nat. split; [exact E|]. split; [exact I|]. rewrite undel_zero. first [reflexivity | symmetry; exact Hr0].
+    + exists d', pre', 0%nat. split; [exact E|]. split; [exact I|]. split; [rewrite undel_zero; first [reflexivity | symmetry; exact Hr0]|].
+      split; [right; split; [exists f0; split; [reflexivity | exact Hlast]|]; split; [reflexivity|]; split; [exact F11|]; split; [exact F12|]; split; [exact F10|]; split; [rewrite F3, H1; reflexivity | exact F4] | exact FT].
   - (* the next record of the same file *)
     destruct Hif as [H1 [H2 [H3 H4]]].
     assert (Hsucc : pre <> [] -> (S off < length (headf pre w))%nat).
@@ -609,9 +632,10 @@ Proof.
       - left. lia. }
     pose proof (move_forward_fields d Hpre) as F. cbv zeta in F.
     set (r0 := move_forward d) in *.
-    destruct F as [F1 [F2 [F3 [F4 [F5 [F6 [F7 [F8 F9]]]]]]]].
-    replace (negb (readFileNum d =? nextReadFileNum d)) with false in F9 by (rewrite H1; lia).
-    destruct (loop_fresh c r0 pre w (S off) 63) as [d' [E I]].
+    destruct F as [F1 [F2 [F3 [F4 [F5 [F6 [F7 [F8 [F9 [F10 [F11 F12]]]]]]]]]]].
+    replace (negb (readFileNum d =? nextReadFileNum d)) with false in F9, F10, F11, F12 by (rewrite H1; lia).
+    cbn [andb] in F12.
+    destruct (loop_fresh c r0 pre w (S off) 63) as [d' [E [I FT]]].
     + rewrite F1, F2, F3, F4, F5, F9, H1, H2. constructor; try assumption.
       * split; [lia | exact Hsucc].
       * lia.
@@ -619,7 +643,8 @@ Proof.
     + rewrite F6, F1. reflexivity.
     + intros _. rewrite F7, F3. reflexivity.
     + rewrite F8, F1, F3, H1. exact H3.
-    + exists d', pre, (S off). split; [exact E|]. split; [exact I | exact Hund].
+    + exists d', pre, (S off). split; [exact E|]. split; [exact I|]. split; [exact Hund|].
+      split; [left; split; [reflexivity|]; split; [reflexivity|]; split; [exact F11|]; split; [exact F12|]; split; [rewrite F3, H1; reflexivity | exact F4] | exact FT].
 Qed.
 
 (* ---- a clean restart ---- *)
@@ -637,7 +662,7 @@ Proof.
   rewrite meta_roundtrip.
   unfold LOOP_FUEL.
   match goal with |- context [loop_top c _ ?x] => set (r := x) end.
-  destruct (loop_fresh c r pre w off 63) as [d' [E I]].
+  destruct (loop_fresh c r pre w off 63) as [d' [E [I _]]].
   - cbn [r readPos writePos readFileNum writeFileNum depth fs f_segs]. exact B.
   - reflexivity.
   - intros _. reflexivity.
@@ -646,11 +671,16 @@ Proof.
 Qed.
 
 (* ---- a fresh directory ---- *)
-Lemma open_emptyS c : exists d, dq_open c fs_empty [] = Some d /\ sinv c d [] [] 0.
+Definition fresh_state : dq :=
+  {| readPos := 0; writePos := 0; readFileNum := 0; writeFileNum := 0; depth := 0%Z; nextReadPos := 0; nextReadFileNum := 0;
+     needSync := false; count := 0%Z; rfile := None; wopen := false; pending := []; ready := false; fs := fs_empty; trace := [] |}.
+
+Lemma open_emptyS c : exists d, dq_open c fs_empty [] = Some d /\ sinv c d [] [] 0 /\
+  same_files d (presync c fresh_state).
 Proof.
   unfold dq_open. cbn [f_meta fs_empty]. unfold LOOP_FUEL.
   match goal with |- context [loop_top c _ ?x] => set (r := x) end.
-  destruct (loop_fresh c r [] [] 0 63) as [d' [E I]].
+  destruct (loop_fresh c r [] [] 0 63) as [d' [E [I FT]]].
   - cbn [r readPos writePos readFileNum writeFileNum depth fs f_segs fs_empty]. constructor.
     + reflexivity.
     + intros f [].
@@ -666,7 +696,7 @@ Proof.
   - reflexivity.
   - intros _. reflexivity.
   - exact I.
-  - exists d'. split; [exact E | exact I].
+  - exists d'. split; [exact E|]. split; [exact I | exact FT].
 Qed.
 
 (* ---- refinement: any maxBytesPerFile, any syncEvery, any message sizes below 2^31 ---- *)
@@ -685,7 +715,7 @@ Proof.
   destruct o as [m| | |]; cbn [smallops] in F.
   - (* Put *)
     apply andb_true_iff in F as [F1 F2].
-    destruct (put_stepS c d pre w off m I ltac:(unfold small; lia)) as [d' [pre' [w' [E [I' U]]]]].
+    destruct (put_stepS c d pre w off m I ltac:(unfold small; lia)) as [d' [pre' [w' [E [I' [U _]]]]]].
     cbn [dq_run dq_step fifo_run]. rewrite E.
     specialize (IH d' pre' w' off I' F2). rewrite U in IH.
     destruct (dq_run c (Some d') ops) as [outs dl]. cbn [fst] in *. rewrite IH. reflexivity.
@@ -696,12 +726,12 @@ Proof.
       specialize (IH d pre w off (conj B Hh) F). rewrite EU in IH.
       destruct (dq_run c (Some d) ops) as [outs dl]. cbn [fst] in *. rewrite IH. reflexivity.
     + pose proof I as [B Hh]. unfold head_ok in Hh. rewrite EU in Hh. destruct Hh as [Hr [Hp _]]. rewrite Hr, Hp.
-      destruct (get_stepS c d pre w off m q' I EU) as [d' [pre' [off' [E [I' U]]]]]. rewrite E.
+      destruct (get_stepS c d pre w off m q' I EU) as [d' [pre' [off' [E [I' [U _]]]]]]. rewrite E.
       specialize (IH d' pre' w off' I' F). rewrite U in IH.
       destruct (dq_run c (Some d') ops) as [outs dl]. cbn [fst] in *. rewrite IH. reflexivity.
   - (* SyncTick *)
     cbn [dq_run dq_step fifo_run].
-    destruct (tick_stepS c d pre w off I) as [d' [E I']]. rewrite E.
+    destruct (tick_stepS c d pre w off I) as [d' [E [I' _]]]. rewrite E.
     specialize (IH d' pre w off I' F).
     destruct (dq_run c (Some d') ops) as [outs dl]. cbn [fst] in *. rewrite IH. reflexivity.
   - (* CloseReopen *)
@@ -715,6 +745,6 @@ Theorem fifo_from_empty_segments c ops :
   smallops ops = true ->
   fst (dq_run c (dq_open c fs_empty []) ops) = fifo_run [] ops.
 Proof.
-  intros F. destruct (open_emptyS c) as [d [E I]]. rewrite E.
+  intros F. destruct (open_emptyS c) as [d [E [I _]]]. rewrite E.
   apply (fifo_refinement_segments c ops d [] [] 0 I F).
 Qed.
